@@ -46,6 +46,38 @@ fn draw_field_assigned(t: &TextD, font: &MonoFont<'_>) -> (PixMap, Point, embedd
     })
 }
 
+/// The same text with a character style made by a builder on which the font is set LAST, after
+/// colours and decorations (seeded `C14-18`: `MonoTextStyleBuilder::font()` copying the underline
+/// setting into the strikethrough setting - invisible when `font()` is the first builder call).
+fn draw_font_set_last(t: &TextD, font: &MonoFont<'_>) -> (PixMap, Point, embedded_graphics::primitives::Rectangle) {
+    use embedded_graphics::{mono_font::MonoTextStyleBuilder, text::DecorationColor};
+    t.with_text::<C, _>(font, |text| {
+        let cs = text.character_style;
+        let mut b = MonoTextStyleBuilder::<C>::new();
+        if let Some(c) = cs.text_color {
+            b = b.text_color(c);
+        }
+        if let Some(c) = cs.background_color {
+            b = b.background_color(c);
+        }
+        b = match cs.underline_color {
+            DecorationColor::None => b,
+            DecorationColor::TextColor => b.underline(),
+            DecorationColor::Custom(c) => b.underline_with_color(c),
+        };
+        b = match cs.strikethrough_color {
+            DecorationColor::None => b,
+            DecorationColor::TextColor => b.strikethrough(),
+            DecorationColor::Custom(c) => b.strikethrough_with_color(c),
+        };
+        let mut t2 = text.clone();
+        t2.character_style = b.font(cs.font).build();
+        let mut tg = IterTarget::<C>::new(unbounded_box());
+        let next = t2.draw(&mut tg).unwrap();
+        (tg.log.map, next, t2.bounding_box())
+    })
+}
+
 fn draw_onto(t: &TextD, font: &MonoFont<'_>, tg: &mut IterTarget<C>) -> Point {
     t.with_text::<C, _>(font, |text| text.draw(tg).unwrap())
 }
@@ -97,6 +129,10 @@ fn check(ctx: &mut Ctx, t: &TextD, font: &MonoFont<'_>, rng: &mut Rng) {
             let bb = t.with_text::<C, _>(font, |text| text.bounding_box());
             if !m2.same(&whole) || n2 != next || bb2 != bb {
                 ctx.violation(format!("field-assigned-style-differs|{}", fc), || desc(t), || format!("style built with MonoTextStyle::new(other font) and assigned fields: returned {:?} (constructed style: {:?}), bounding box {:?} (constructed: {:?}), first differing pixel {:?}", n2, next, bb2, bb, m2.first_diff(&whole)));
+            }
+            let (m3, n3, bb3) = draw_font_set_last(t, font);
+            if !m3.same(&whole) || n3 != next || bb3 != bb {
+                ctx.violation(format!("builder-with-font-set-last-differs|{}", fc), || desc(t), || format!("style built with MonoTextStyleBuilder::new()...font(f).build(): returned {:?} (reference {:?}), bounding box {:?} (reference {:?}), first differing pixel {:?}", n3, next, bb3, bb, m3.first_diff(&whole)));
             }
             ctx.count("texts_also_drawn_with_a_field_assigned_style", 1);
         }
